@@ -70,8 +70,9 @@ def fam_bytes(nmax=8):
     S5 = StructDef('By_unk', [Field(1, 'default', S('i8')), Field(300, 'required', S('i16'))], has_unknown=True)
     S6 = StructDef('By_enum', [Field(1, 'default', S('enum')), Field(2, 'default', S('double')), Field(3, 'default', ('map', S('enum'), S('double')))])
     S7 = StructDef('By_small', [Field(1, 'default', ('list', S('bool'))), Field(2, 'default', ('set', S('i8'))), Field(3, 'optional', ('list', S('i8')))])
+    S8 = StructDef('By_nc', [Field(1, 'default', S('string'), nocopy=True), Field(2, 'optional', S('binary'), nocopy=True), Field(3, 'optional', S('string'), ptr=True, nocopy=True)])
     # (By_scalars at N = 12 exceeded the 200000-path budget in a measured run: capped at 11)
-    return [{'sd': s, 'kinds': ['bytes'], 'params': {'bytes': [x for x in ns if not (s.name == 'By_scalars' and x['N'] > 11)]}} for s in (S1, S2, S3, S4, S5, S6, S7)]
+    return [{'sd': s, 'kinds': ['bytes'], 'params': {'bytes': [x for x in ns if not (s.name == 'By_scalars' and x['N'] > 11)]}} for s in (S1, S2, S3, S4, S5, S6, S7, S8)]
 
 def pair(w, t, orders=3, reach=None, hop=False, dup=False):
     d = {'w': w, 't': t, 'kinds': ['decmsg'] + (['hop'] if hop else []), 'params': {'decmsg': [{'orders': orders}]}}
@@ -134,6 +135,19 @@ def fam_required():
         ow_ = StructDef('RqShW%d' % n, [Field(1, 'optional', S('i8'), ptr=True), Field(2, 'optional', S('string'), ptr=True, name='Name'), Field(5, 'default', tw)])
         ot_ = StructDef('RqShT%d' % n, [Field(1, 'required', S('i8')), Field(2, 'required', S('string'), name='Name'), Field(5, 'default', tt)])
         out.append(pair(ow_, ot_, 3, reach=['end', 'ok', 'missing'], dup=True))
+    # required fields of every non-scalar kind (pointer to struct, by-value struct, list, map, string, binary): the writer
+    # may omit any subset of them
+    kw = StructDef('RqKindW', [Field(1, 'optional', ('struct', wi, True)), Field(2, 'optional', ('struct', wi, True)), Field(3, 'optional', ('list', S('i8'))),
+                               Field(4, 'optional', ('map', S('i8'), S('i8'))), Field(5, 'optional', S('string'), ptr=True), Field(6, 'optional', S('binary'))])
+    kt = StructDef('RqKindT', [Field(1, 'required', ('struct', ti, True)), Field(2, 'required', ('struct', ti, False)), Field(3, 'required', ('list', S('i8'))),
+                               Field(4, 'required', ('map', S('i8'), S('i8'))), Field(5, 'required', S('string')), Field(6, 'required', S('binary'))])
+    out.append(pair(kw, kt, 2, reach=['end', 'ok', 'missing']))
+    # encode side: every required field is written even when nil / empty / zero. (The nested struct type has no required
+    # fields of its own here: a nil pointer to a struct WITH required fields is encoded as a bare STOP, which the decoder
+    # then rejects by C09 - for such values C01's 'comes back empty' and C09 cannot both hold, so they are left out.)
+    kc = StructDef('RqKindC', [Field(1, 'required', ('struct', LEAF, True)), Field(2, 'required', ('struct', LEAF, False)), Field(3, 'required', ('list', S('i8'))),
+                               Field(4, 'required', ('map', S('i8'), S('i8'))), Field(5, 'required', S('string')), Field(6, 'required', S('binary')), Field(7, 'required', S('i64'))])
+    out.append({'sd': kc, 'kinds': ['codec'], 'params': {'codec': [{'S': 1, 'L': 1, 'M': 1, 'D': 1}]}})
     wr = StructDef('RqTypeW', [Field(1, 'optional', S('i64'), ptr=True), Field(2, 'default', S('i8'))])
     tr = StructDef('RqTypeT', [Field(1, 'required', S('i32')), Field(2, 'default', S('i8'))])
     out.append(pair(wr, tr, 2, reach=['end', 'missing']))
@@ -191,10 +205,18 @@ def fam_nocopy():
                           Field(4, 'default', S('string')), Field(5, 'default', S('binary')), Field(6, 'optional', S('string'), ptr=True)])
     b = StructDef('NcB', [Field(7, 'default', ('struct', inner, True)), Field(8, 'default', ('list', ('struct', inner, False))), Field(300, 'default', ('list', S('string')))])
     sm = {'codec': [{'S': 2, 'L': 1, 'M': 1, 'D': 1}]}
+    # containers of structs that END in a nocopy field, next to ordinary strings (map keys / values, list elements decoded
+    # right after such a struct): only tagged fields may view the input, whatever was decoded just before
+    c = StructDef('NcC', [Field(1, 'default', ('map', S('string'), ('struct', inner, True))), Field(4, 'default', S('string'))])
+    c2 = StructDef('NcC2', [Field(2, 'default', ('list', ('struct', inner, False))), Field(3, 'default', ('list', S('string')))])
+    pc = pair(c, c, 1)
+    pc['params'] = {'decmsg': [{'orders': 1, 'plain': 1, 'M': 2, 'L': 2, 'S': 1}]}
+    pc2 = pair(c2, c2, 1)
+    pc2['params'] = {'decmsg': [{'orders': 1, 'plain': 1, 'M': 2, 'L': 2, 'S': 1}]}
     pb = pair(b, b, 2)
     if TIER == 'thorough':
         pb['params'] = {'decmsg': [{'orders': 2, 'L': 1}]}   # (L = 2 exceeded the path budget in a measured run)
-    return [pair(a, a, 3), pb, {'sd': a, 'kinds': ['codec'], 'params': sm}, {'sd': b, 'kinds': ['codec'], 'params': sm}]
+    return [pc, pc2, pair(a, a, 3), pb, {'sd': a, 'kinds': ['codec'], 'params': sm}, {'sd': b, 'kinds': ['codec'], 'params': sm}]
 
 def fam_unknown():
     u1 = StructDef('UkA', [Field(1, 'default', S('i32')), Field(2, 'optional', S('string'), ptr=True)], has_unknown=True)
@@ -319,12 +341,13 @@ def fam_mutmsg(full=False):
             out.append({'w': w, 't': t, 'kinds': ['mutmsg'], 'params': {'mutmsg': [{'mut': mu}]}, 'reach': ['end', ['cut', 'byte', 'word'][mu]]})
     unk = StructDef('MuSkip', [Field(900, 'default', i8)], has_unknown=True)
     for k, sd in enumerate(types):
-        add(sd, sd, [0, 1, 2] if (full or k == 0) else ([0, 2] if sd.name == 'MuG' else [0]))
+        # (thorough: byte/word corruption of MuC and MuD did not finish within the time limit on a loaded machine)
+        add(sd, sd, [0, 1, 2] if ((full and sd.name not in ('MuC', 'MuD')) or k == 0) else ([0, 2] if sd.name == 'MuG' else [0]))
     # a reader that does not know the writer's fields: everything goes through the unknown-field skipper
     for k, sd in enumerate(types[:5]):
         # (thorough: the byte/word corruption variants of MuC and MuD through the skipper did not finish within 3000 s in
         # a measured run and are left at truncation only: registered bounds are bounds that ran clean)
-        add(sd, unk, [0, 1, 2] if (full and sd.name not in ('MuC', 'MuD')) else [0])
+        add(sd, unk, [0, 1, 2] if (full and sd.name in ('MuB', 'MuE')) else [0])
     return out
 
 def mk_dprec():
